@@ -1,6 +1,7 @@
 import Qv.Driver.C05
 import Qv.Driver.C02
 import Qv.Driver.C19
+import Qv.Driver.C19H
 import Qv.Driver.C15
 import Qv.Driver.C18
 import Qv.Driver.C07
@@ -19,10 +20,10 @@ import Qv.Driver.C12
 import Qv.Driver.C08
 /-! Line-protocol driver: one JSON object per input line, one JSON object per output line.
 Each `Qv/Driver/Cxx.lean` exports `handlersCxx`; add its import above and its list below. -/
-open Lean Qv Qv.Drv Qv.Drv.C19 Qv.Drv.C15 Qv.Drv.C18 Qv.Drv.C07 Qv.Drv.C06 Qv.Drv.C09 Qv.Drv.C11 Qv.Drv.C04 Qv.Drv.C01 Qv.Drv.C13 Qv.Drv.C03 Qv.Drv.C10 Qv.Drv.C14 Qv.Drv.C17 Qv.Drv.C16 Qv.Drv.C12 Qv.Drv.C08
+open Lean Qv Qv.Drv Qv.Drv.C19 Qv.Drv.C19H Qv.Drv.C15 Qv.Drv.C18 Qv.Drv.C07 Qv.Drv.C06 Qv.Drv.C09 Qv.Drv.C11 Qv.Drv.C04 Qv.Drv.C01 Qv.Drv.C13 Qv.Drv.C03 Qv.Drv.C10 Qv.Drv.C14 Qv.Drv.C17 Qv.Drv.C16 Qv.Drv.C12 Qv.Drv.C08
 
 def allHandlers : List (String × (Json → Except String Json)) :=
-  handlersC05 ++ handlersC02 ++ handlersC19 ++ handlersC15 ++ handlersC18 ++ handlersC07 ++ handlersC06 ++ handlersC09 ++ handlersC11 ++ handlersC04 ++ handlersC01 ++ handlersC13 ++ handlersC03 ++ handlersC10 ++ handlersC14 ++ handlersC17 ++ handlersC16 ++ handlersC12 ++ handlersC08
+  handlersC05 ++ handlersC02 ++ handlersC19 ++ handlersC19H ++ handlersC15 ++ handlersC18 ++ handlersC07 ++ handlersC06 ++ handlersC09 ++ handlersC11 ++ handlersC04 ++ handlersC01 ++ handlersC13 ++ handlersC03 ++ handlersC10 ++ handlersC14 ++ handlersC17 ++ handlersC16 ++ handlersC12 ++ handlersC08
 
 def dispatch (j : Json) : Except String Json := do
   let op ← j.getObjVal? "op" >>= Json.getStr?
